@@ -9,6 +9,7 @@ import (
 	"fmt"
 	"net/url"
 	"path"
+	"sort"
 	"strings"
 	"time"
 )
@@ -54,10 +55,28 @@ func (propC01) Gen(seed uint64, tier string, idx int) *Plan {
 	if fault {
 		p.Sub = "fault"
 	}
-	epType := pickS(r, []string{"vllm", "sglang", "ollama", "llamacpp", "openai-compatible"})
+	epType := pickS(r, []string{"vllm", "sglang", "ollama", "llamacpp", "openai-compatible", "lm-studio"})
 	prefix := epType
 	if epType == "openai-compatible" {
 		prefix = "openai"
+	}
+	if epType == "lm-studio" {
+		prefix = pickS(r, []string{"lm-studio", "lmstudio", "lm_studio"}) // every routing prefix the profile declares
+	}
+	if r.Chance(300) {
+		// any shipped profile under any routing prefix its YAML declares
+		t := c11Load()
+		var names []string
+		for n, pf := range t.profiles {
+			if len(pf.Routing.Prefixes) > 0 {
+				names = append(names, n)
+			}
+		}
+		sort.Strings(names)
+		if len(names) > 0 {
+			epType = pickS(r, names)
+			prefix = pickS(r, t.profiles[epType].Routing.Prefixes)
+		}
 	}
 	nEp := 1 + r.Pick(3)
 	baseMode := r.Pick(3) // 0 none, 1 base path, 2 base path + preserve_path
@@ -200,7 +219,7 @@ func stripRoute(p, prefix string) string {
 	return p
 }
 
-var nativeAnthropic = map[string]string{"vllm": "/v1/messages", "ollama": "/v1/messages", "llamacpp": "/v1/messages", "lmstudio": "/v1/messages", "lm-studio": "/v1/messages", "vllm-mlx": "/v1/messages", "dmr": "/anthropic/v1/messages"}
+// (native Anthropic support is read from the shipped profiles: c11Load().native)
 
 func (propC01) Check(r *Run) []Violation {
 	var out []Violation
@@ -236,8 +255,8 @@ func (propC01) Check(r *Run) []Violation {
 		switch {
 		case op.Path == "/olla/anthropic/v1/messages":
 			route = "anthropic"
-			if mp, ok := nativeAnthropic[ep.Type]; ok && r.Plan.Stack.Passthrough {
-				wantPath = mp
+			if c11Load().native(ep.Type) && r.Plan.Stack.Passthrough {
+				wantPath = "/v1/messages" // native support as the shipped profile of that type declares it
 			} else {
 				wantPath = "/v1/chat/completions"
 				translated = true
